@@ -612,7 +612,7 @@ def simulate_loop(chk: Check, ctx: FuncCtx, loop, carried, inputs, fields=None, 
         val.call_models = call_models
         visited, ex = walk_cfg(chk, ctx, start, val, within=within)
         at = {}
-        srcs = [src for src, _ in next(iter(carried.values()))["next"]] if carried else []
+        srcs = list(cfg.back_edge_sources(loop))
         back = ex[0] in ("back", "left", "continue") and not (ex[0] == "left" and ex[1] is not hdr)
         src = None
         if back:
@@ -640,6 +640,24 @@ def simulate_loop(chk: Check, ctx: FuncCtx, loop, carried, inputs, fields=None, 
         state = new
         rounds.final = dict(state)
     return rounds
+
+
+def after_loop_valuation(chk: Check, ctx: FuncCtx, loop, carried, rounds, fields=None, call_models=None):
+    """The valuation for the statements behind a simulated loop: there a carried variable reads as the join of its definitions,
+    and that join has the final state's value."""
+    within = ctx.cfg.loop_nodes[loop] | {ctx.cfg.node_of[loop]}
+    ov = dict(rounds[-1].val.override) if rounds else {}
+    for node in ctx.cfg.nodes:
+        if node in within or not isinstance(getattr(node, "ast", None), ast.AST):
+            continue
+        for name in carried:
+            if name in rounds.final:
+                tt = rn(chk, ctx, name, node, False)
+                if not S.is_const(tt) and tt not in ov:
+                    ov[tt] = rounds.final[name]
+    val = S.Valuation(1, override=ov, fields=fields)
+    val.call_models = call_models
+    return val
 
 
 def simulate_generator(chk: Check, ctx: FuncCtx, loop, base=None, fields=None, call_models=None, max_rounds=64):
@@ -673,19 +691,7 @@ def simulate_generator(chk: Check, ctx: FuncCtx, loop, base=None, fields=None, c
             return out
         if kind != "left" or last[2][1] is ctx.cfg.node_of[loop]:
             return None
-        # behind the loop a carried variable reads as the join of its definitions: that join has the final state's value
-        within = ctx.cfg.loop_nodes[loop] | {ctx.cfg.node_of[loop]}
-        ov = dict(last.val.override)
-        for node in ctx.cfg.nodes:
-            if node in within or not isinstance(getattr(node, "ast", None), ast.AST):
-                continue
-            for name in carried:
-                if name in rounds.final:
-                    tt = rn(chk, ctx, name, node, False)
-                    if not S.is_const(tt) and tt not in ov:
-                        ov[tt] = rounds.final[name]
-        val = S.Valuation(1, override=ov, fields=fields)
-        val.call_models = call_models
+        val = after_loop_valuation(chk, ctx, loop, carried, rounds, fields=fields, call_models=call_models)
         visited, ex = walk_cfg(chk, ctx, last[2][1], val)
         if ex[0] in ("fork", "limit"):
             return None
